@@ -460,8 +460,9 @@ func takePenalty(currentDB *state.StateDB, val *state.Validator, penaltyAmount *
 		}
 	}
 
-	// second, take penalty from staking
-	newVal = val.PartialCopy()
+	// second, take penalty from staking; the penalty is written into the delegation entries, so the new
+	// record needs its own (the old record stays in the journal for the undo)
+	newVal = val.DeepCopy()
 	fromDeposit := fromWithdraw // just for clear
 	if penaltyAmount.Sign() > 0 {
 		if selfPenalty.Sign() > 0 {
